@@ -13,7 +13,7 @@ import itertools
 
 S = Sym
 PROPERTY = 'C18'
-PROPS_MODULES = ['C18', 'C06c', 'C18b', 'C18c', 'C18d', 'C18e', 'C18f', 'C06k']
+PROPS_MODULES = ['C18', 'C06c', 'C18b', 'C18c', 'C18d', 'C18e', 'C18f', 'C01g', 'C06k']
 ASSUMPTIONS = []
 
 SEPS = ['\n', '\n\n', ' ', '\n \n', '\t', '\r\n', '  \n  ']
